@@ -3,6 +3,10 @@ package main
 import (
 	"fmt"
 	"strings"
+
+	casbin "github.com/casbin/casbin/v2"
+	"github.com/casbin/casbin/v2/model"
+	stringadapter "github.com/casbin/casbin/v2/persist/string-adapter"
 )
 
 // C06: the policy store is an ordered set with a coherent index.
@@ -517,8 +521,64 @@ func init() {
 		}
 		c.Exhaust = false // the random part is a sample; the enumeration part is complete for its universe
 		c.Notes = append(c.Notes, "enumeration part exhaustive for the 4-rule universe (all reachable ordered lists x whole alphabet); random part seeded")
+		c06OrderingLoads(c)
 		c06Probes(c)
 	})
+}
+
+// loads that re-order the rule list (priority sort, subject hierarchy sort) rebuild the index:
+// afterwards every listed rule must be present and a removal must hit exactly its slot
+func c06OrderingLoads(c *Ctx) {
+	const spModel = "[request_definition]\nr = sub, obj, act\n[policy_definition]\np = sub, obj, act, eft\n[role_definition]\ng = _, _\n[policy_effect]\ne = subjectPriority(p_eft) || deny\n[matchers]\nm = g(r.sub, p.sub) && r.obj == p.obj && r.act == p.act\n"
+	texts := []struct{ model, policy string }{
+		{spModel, "p, root, data1, read, deny\np, admin, data1, read, deny\np, alice, data1, read, allow\np, bob, data2, read, allow\ng, admin, root\ng, alice, admin\ng, bob, root\n"},
+		{spModel, "p, alice, data1, read, allow\np, root, data1, read, deny\np, admin, data1, write, deny\ng, alice, admin\ng, admin, root\n"},
+		{machPriority.Text, "p, 10, alice, data1, read, allow\np, 1, bob, data1, read, deny\np, 5, alice, data2, read, deny\np, 1, alice, data1, write, allow\n"},
+	}
+	for ti, t := range texts {
+		var listed [][]string
+		{
+			mm, _ := model.NewModelFromString(t.model)
+			e, err := casbin.NewEnforcer(mm, stringadapter.NewAdapter(t.policy))
+			if err != nil {
+				c.Direct(fmt.Sprintf("c06.order.%d", ti), "the policy does not load", t.policy)
+				continue
+			}
+			listed, _ = e.GetPolicy()
+			listed = append([][]string(nil), listed...)
+		}
+		for i := range listed {
+			mm, _ := model.NewModelFromString(t.model)
+			e, _ := casbin.NewEnforcer(mm, stringadapter.NewAdapter(t.policy))
+			e.EnableAutoSave(false) // the string adapter implements no auto-save call
+			id := fmt.Sprintf("c06.order.%d.%d", ti, i)
+			for _, r := range listed {
+				if ok, _ := e.HasPolicy(toIface(r)...); !ok {
+					c.Direct(id, "after a re-ordering load a listed rule is reported absent", fmt.Sprint(r, listed))
+				}
+			}
+			ok, _ := e.RemovePolicy(toIface(listed[i])...)
+			after, _ := e.GetPolicy()
+			var want [][]string
+			want = append(want, listed[:i]...)
+			want = append(want, listed[i+1:]...)
+			if !ok || rulesKey(after) != rulesKey(want) {
+				c.Direct(id, "after a re-ordering load RemovePolicy did not remove exactly the named rule", fmt.Sprintf("remove %v -> %v listed=%s expected=%s", listed[i], ok, rulesKey(after), rulesKey(want)))
+			}
+			// an update of the next rule keeps its slot
+			if len(want) > 0 {
+				old := want[0]
+				nw := append([]string(nil), old...)
+				nw[len(nw)-2] = "changed"
+				ok2, _ := e.UpdatePolicy(old, nw)
+				after2, _ := e.GetPolicy()
+				if !ok2 || len(after2) != len(want) || !sameRule(after2[0], nw) {
+					c.Direct(id, "after a re-ordering load UpdatePolicy did not replace the rule in its slot", fmt.Sprintf("update %v -> %v listed=%s", old, ok2, rulesKey(after2)))
+				}
+			}
+			c.Count("ordering-load")
+		}
+	}
 }
 
 // known findings of C06 (not repaired): F07 comma key collision, F08 update to a listed rule /
